@@ -137,5 +137,33 @@ PROPS["C15"] = {
 }
 
 
+PROPS["C02"] = {
+    "level": "proof",
+    "verus": ["texlang_macro"],
+    "kani": [],
+    "witness_always": ["texlang_macro"],
+    "witness_bound": {"texlang_macro": "real VM vs an executable transcription of TeX's macro_call: prefix {none, one token} x parameters {undelimited, delimited by 1-2 tokens, trailing #{} x 1-2 parameters x 10 argument shapes (empty, token, group, several groups, nested groups, leading spaces) x 3-4 replacement texts = 4476 definitions+calls, tokens after the call included"},
+    "unverified_callers": [
+        "PROVED: only Parameter::should_trim_outer_braces_if_present (== 'the whole argument is a single group'). BOUNDED (witness driver, not proof): parse_delimited_argument, parse_undelimited_argument, perform_replacement, Macro::call, def.rs parse_prefix_and_parameters / parse_replacement_text, the KMP matcher",
+        "## in replacement texts, more than two parameters, \\long/\\outer, the VM expansion loop",
+    ],
+    "assumptions": [],
+}
+PROPS["C09"] = {
+    "level": "proof",
+    "only_kinds": ["overflow", "div-by-zero", "bounds", "precondition", "shift", "assertion", "concrete-counterexample", "kani"],
+    "verus": ["common_scaled", "stdext_groupingmap", "texlang_savestack", "texlang_cmdmap", "stdlib_prefix", "stdlib_cond", "texlang_macro"],
+    "kani": [],
+    "witness_always": ["texlang_parse_num"],
+    "witness_fns": {"texlang_parse_num": ["parse_impl", "parse_constant", "scan_dimen"]},
+    "witness_bound": {"texlang_parse_num": "real VM scanners on numbers at and beyond every limit (i32 boundaries in 3 radices, dimensions at +-2^30 sp, character codes incl. surrogates): value or recoverable error, never a panic"},
+    "unverified_callers": [
+        "FUNCTIONS UNDER CONTRACT ONLY: the safety obligations (no overflow, out-of-bounds, failed unwrap/expect, unreachable!, division by zero, for all inputs meeting the stated precondition) of the functions listed in coverage.functions_under_contract. NOT covered: VM::run_impl, the.rs, error rendering (error/display.rs), filelocation.rs, every primitive not listed - 'never panics' is NOT claimed for the interpreter as a whole",
+        "shutdown-protocol consistency (ShutdownStatus transitions) is a whole-history property of arbitrary function-pointer callees: not decided",
+    ],
+    "assumptions": ["the stream prelude (DESIGN §3.3)"],
+}
+
+
 def props():
     return PROPS
